@@ -469,7 +469,8 @@ RunLoop:
 				} else {
 					done = numIsLessThan(nextStart, stop) || numIsLessThan(start, nextStart)
 				}
-				if done {
+				if done || isNaNValue(nextStart) {
+					// A NaN value compares false with the limit: the loop is over.
 					nextStart = NilValue
 				}
 				setReg(regs, cells, startReg, nextStart)
@@ -516,7 +517,9 @@ RunLoop:
 				} else {
 					done, _ = isLessThan(start, stop)
 				}
-				if done {
+				if done || isNaNValue(start) || isNaNValue(stop) {
+					// The loop runs while the value is <= (or >=) the limit: a NaN
+					// initial value or limit means it does not run at all.
 					start = NilValue
 				}
 				setReg(regs, cells, startReg, start)
@@ -564,6 +567,11 @@ func (c *LuaCont) clearReg(reg code.Reg) {
 	} else {
 		c.registers[reg.Idx()] = NilValue
 	}
+}
+
+func isNaNValue(v Value) bool {
+	f, ok := v.TryFloat()
+	return ok && f != f
 }
 
 func setReg(regs []Value, cells []Cell, reg code.Reg, val Value) {
